@@ -233,61 +233,67 @@ class C05:
 
     # ------------------------------------------------------------------ R05.1 (features table) + R05.4
     def check_features(self):
+        """The dispatcher is evaluated once per geometry type: whatever the table holds (functions, records of a function and
+        its switches) and wherever the per-type code lives (a named function of the reference tree, or a helper that is
+        inlined), the rule looks at the feature list that comes out for that type."""
         ctx = self.ctx
-        m, tab = ctx.index.need_assign(FEAT, "_COMPUTE_FEATURES")
-        file = m.relpath
-        if not isinstance(tab, ast.Dict):
-            ctx.undec("R05.1", f"{file} _COMPUTE_FEATURES", "not a literal dict")
-            return
-        rows = {}
-        for k, v in zip(tab.keys, tab.values):
-            kt = None
-            if isinstance(k, ast.Call) and isinstance(k.func, ast.Attribute) and k.func.attr == "geom_type":
-                sym = ctx.index.resolve_expr(m, k.func.value)
-                kt = sym.qual if sym is not None else None
-            elif isinstance(k, ast.Constant):
-                kt = f"{GEO}:{k.value}"
-            fsym = ctx.index.resolve_expr(m, v)
-            if kt is None or fsym is None or fsym.kind != "func":
-                ctx.undec("R05.1", f"{file}:{k.lineno} _COMPUTE_FEATURES", f"unrecognised row {ast.unparse(k)}: {ast.unparse(v)}")
-                continue
-            if kt in rows:
-                ctx.bad("R05.1", file, "_COMPUTE_FEATURES", f"duplicate key {ast.unparse(k)}", "duplicate key: the earlier row is dead", k.lineno)
-            rows[kt] = (fsym, k)
-        for c in self.classes:
-            if c.qual not in rows:
-                ctx.bad("R05.1", file, "_COMPUTE_FEATURES", f"{c.name} row missing",
-                        f"no feature function for geometry type {c.name}: compute_geometric_features raises for it", tab.lineno)
-                continue
-            fsym, k = rows[c.qual]
-            modname, fname = fsym.qual.split(":")
-            fs = ctx.summ.of_func(modname, fname)
-            other = self.ann_accepts(fs, fs.params[0], c.qual)
-            if other is not None:
-                ctx.bad("R05.1", file, "_COMPUTE_FEATURES", f"{c.name} -> {fname}",
-                        f"features of {c.name} are computed by {fname}, which is written for {other}", k.lineno)
-                continue
-            ctx.ok("R05.1", f"{file}:{k.lineno} _COMPUTE_FEATURES", f"{c.name} -> {fname}")
-            self.check_feature_fn(c.name, fs)
-        # the dispatcher indexes the table with the object's own tag
         s = ctx.summ.of_func(FEAT, "compute_geometric_features")
+        file = s.module.relpath
         g = ("param", s.params[0])
-        want = ("call", ("sub", ("global", f"{FEAT}:_COMPUTE_FEATURES", "assign"), ("attr", g, "type")), (g,), ())
-        if any(r.term == want for r in s.returns):
-            ctx.ok("R05.1", f"{file}:{s.node.lineno} compute_geometric_features", "_COMPUTE_FEATURES[geometry.type](geometry)")
-        else:
+        tag = ("attr", g, "type")
+        dsite = f"{file}:{s.node.lineno} compute_geometric_features"
+        if not any(tag in set(walk(r.live)) | set(walk(r.term)) for r in s.raw_returns):
             ctx.bad("R05.1", file, "compute_geometric_features", "return _COMPUTE_FEATURES[geometry.type](geometry)",
-                    f"dispatch is not by the geometry's own tag: {[show(r.term)[:60] for r in s.returns]}", s.node.lineno)
-
-    def check_feature_fn(self, name: str, fs: Summary):
-        ctx = self.ctx
-        file = fs.module.relpath
-        fn = fs.qual.split(":")[1]
-        g = ("param", fs.params[0])
-        if len(fs.returns) != 1 or fs.returns[0].term[0] != "list":
-            ctx.undec("R05.4", f"{file}:{fs.node.lineno} {fn}", "does not return a literal list of Feature(...)")
+                    f"dispatch is not by the geometry's own tag: {[show(r.term)[:60] for r in s.raw_returns]}", s.node.lineno)
             return
-        r = fs.returns[0]
+        ctx.ok("R05.1", dsite, "the result is selected by the geometry's own tag (geometry.type)")
+        for c in self.classes:
+            env = {tag: c.name}
+            outs = []
+            for r in s.raw_returns:
+                lv = peval(r.live, env)
+                if lv[0] == "const" and not lv[1]:
+                    continue
+                outs.append((lv, peval(r.term, env), r))
+            outs = [o for o in outs if o[1][0] != "error"]
+            if len(outs) != 1 or not (outs[0][0][0] == "const" and outs[0][0][1]):
+                if not outs:
+                    ctx.bad("R05.1", file, "_COMPUTE_FEATURES", f"{c.name} row missing",
+                            f"no feature function for geometry type {c.name}: compute_geometric_features raises for it", s.node.lineno)
+                else:
+                    ctx.undec("R05.1", dsite, f"{c.name}: result not decided by the type alone ({[show(o[1])[:40] for o in outs]})")
+                continue
+            _, val, r = outs[0]
+            if val[0] == "call" and val[1][0] == "global" and val[1][2] == "func":
+                modname, fname = val[1][1].split(":")
+                fs = ctx.summ.of_func(modname, fname)
+                if tuple(val[2]) != (g,) or val[3]:
+                    ctx.bad("R05.1", file, "compute_geometric_features", f"{c.name} -> {fname}({show(val)[:50]})",
+                            f"the feature function of {c.name} does not receive the geometry itself", r.lineno)
+                    continue
+                other = self.ann_accepts(fs, fs.params[0], c.qual)
+                if other is not None:
+                    ctx.bad("R05.1", file, "_COMPUTE_FEATURES", f"{c.name} -> {fname}",
+                            f"features of {c.name} are computed by {fname}, which is written for {other}", r.lineno)
+                    continue
+                ctx.ok("R05.1", dsite, f"{c.name} -> {fname}")
+                if len(fs.returns) != 1 or fs.returns[0].term[0] != "list":
+                    ctx.undec("R05.4", f"{fs.module.relpath}:{fs.node.lineno} {fname}", "does not return a literal list of Feature(...)")
+                    continue
+                self.check_feature_list(c.name, fs.returns[0].term, ("param", fs.params[0]), fs.module.relpath, fname, fs.returns[0].lineno)
+            elif val[0] == "list":
+                ctx.ok("R05.1", dsite, f"{c.name} -> feature list (helpers inlined)")
+                self.check_feature_list(c.name, val, g, file, "compute_geometric_features", r.lineno)
+            else:
+                ctx.undec("R05.1", dsite, f"{c.name}: result is neither a feature function's nor a feature list: {show(val)[:60]}")
+
+    def check_feature_list(self, name: str, lst, g, file, fn, lineno):
+        ctx = self.ctx
+
+        class _R:  # the list's position, as the return event it came from
+            pass
+        r = _R()
+        r.term, r.lineno = lst, lineno
         shp = ("call", ("global", f"{CONV}:geometry_to_shapely", "func"), (g,), ())
         bnd = ("attr", shp, "bounds")
         cb = ("call", ("global", f"{OPS}:compute_bounds", "func"), (g,), ())
